@@ -19,9 +19,12 @@ SPEC = {
                     "(accepted: must list the live ones, may list those ever written into the current incarnation)",
                     "DROP MEASUREMENT acts on every retention policy of the database, DROP SERIES FROM <unqualified> on the default policy only (measurement names are disjoint "
                     "between policies in the generator)",
-                    "a read that is right within 30 s of the acknowledgement is tolerated and counted (class late-drop: stale tag-filter cache, 8-10 s observed)"],
+                    "a read that is right within 30 s of the acknowledgement is tolerated and counted (class late-drop: stale tag-filter cache, 8-10 s observed)",
+                    "no (series,time) is written twice (overwrites are the subject of C02/C09; the aggregate push-down counts a row overwritten across memtable and files twice)",
+                    "reads never filter or group on a key that is not a tag of the measurement's current incarnation (the server then compares with a missing field)",
+                    "known-finding classes are left out of the generated histories by construction (excluded_by_construction; one replay each under replays/C13)"],
     "campaigns": [
-        {"name": "drop_histories", "run": "^TestDropHistories$", "quick": B(1, 8, 900, steps=10, shrinktime="40s"),
+        {"name": "drop_histories", "run": "^TestDropHistories$", "quick": B(1, 8, 900, steps=10, shrinktime="20s"),
          "thorough": B(10, 8, 3400, steps=20, shrinktime="240s")},
     ],
     "max_parallel": 9,
